@@ -69,6 +69,9 @@ type wconn struct {
 	wire          *wire
 	self          *net.UDPAddr // this conn's local address as seen by the peer
 	overflow      atomic.Int64
+	// stall, when set, holds every WriteBatch of this connection until the
+	// channel is closed (a slow or blocked socket).
+	stall atomic.Pointer[chan struct{}]
 }
 
 func (c *wconn) ReadBatch(msgs conn.Messages) (int, error) {
@@ -103,6 +106,12 @@ func (c *wconn) push(d dgram) {
 }
 
 func (c *wconn) WriteBatch(msgs conn.Messages, _ int) (int, error) {
+	if ch := c.stall.Load(); ch != nil {
+		select {
+		case <-*ch:
+		case <-c.closed:
+		}
+	}
 	for i := range msgs {
 		b := msgs[i].Buffers[0]
 		dst, wr, via := c.peer, c.wire, c.name
@@ -654,6 +663,78 @@ func (w *c15World) probe(pt *probeTmpl, phase string, hist []string) {
 	}
 }
 
+// burst: while the session of the probe's egress link is down, the socket the
+// SCMP answers leave through is held up and a burst of probes is pushed in, so
+// that the router runs out of room for answers. Whatever it does with the
+// excess, none of the burst may appear on the link that is down.
+func (w *c15World) burst(pt *probeTmpl, n int, phase string, hist []string) {
+	r := w.r
+	link := pt.rt.star.Link(pt.egIf)
+	sess := link.BFDSession()
+	if sess == nil || sess.IsUp() {
+		return
+	}
+	c0 := router.VerifMetricValue(sess.Metrics.StateChanges)
+	gate := make(chan struct{})
+	pt.in.stall.Store(&gate)
+	sers := make([]uint64, 0, n)
+	for i := 0; i < n; i++ {
+		w.serial++
+		ser := uint64(w.id)<<40 | w.serial
+		b := append([]byte(nil), pt.b...)
+		copy(b[len(b)-12:], c15Magic[:])
+		binary.BigEndian.PutUint64(b[len(b)-8:], ser)
+		pt.in.push(dgram{b: b, addr: pt.src})
+		sers = append(sers, ser)
+	}
+	// let the pipeline absorb the burst (bounded; scheduling only decides how
+	// much is exposed, never the verdict)
+	for spin := 0; spin < 100 && len(pt.in.in) > 0; spin++ {
+		time.Sleep(time.Millisecond)
+	}
+	time.Sleep(10 * time.Millisecond)
+	pt.in.stall.Store(nil)
+	close(gate)
+	time.Sleep(20 * time.Millisecond)
+	u1 := sess.IsUp()
+	c1 := router.VerifMetricValue(sess.Metrics.StateChanges)
+	r.Event("burst_towards_down_link")
+	if u1 || c0 != c1 || c0 < 0 {
+		r.Inconclusive("bfd-state-bracket")
+		return
+	}
+	answered, fwd := 0, 0
+	var bad *emission
+	w.mu.Lock()
+	for _, ser := range sers {
+		for i := range w.emis[ser] {
+			e := w.emis[ser][i]
+			switch {
+			case e.Kind == "scmp":
+				answered++
+			case e.Kind == "fwd" && e.Router == pt.rt.name:
+				fwd++
+				if bad == nil {
+					bad = &e
+				}
+			}
+		}
+	}
+	w.mu.Unlock()
+	r.Eval(n)
+	r.EventN("burst_probe", int64(n))
+	if answered < n {
+		r.Event("burst_with_unanswered_probes")
+	}
+	r.Class(fmt.Sprintf("%s/%s->%s/down/burst/%s", pt.rt.name, pt.inKind, pt.egScope, strings.SplitN(phase, ":", 2)[0]))
+	if bad != nil {
+		key := "C15:down-forwarded:" + pt.egScope
+		r.Violation(key, fmt.Sprintf("BFD session of the egress link was down throughout, yet %d of %d probes of a burst were forwarded over %s while the router was short of room for SCMP answers",
+			fwd, n, bad.Via), map[string]any{"world": w.id, "probe": pt.desc, "phase": phase, "burst": n, "forwarded": fwd, "answered_scmp": answered,
+			"first_forwarded": bad, "history": hist})
+	}
+}
+
 func (w *c15World) run(rng *rand.Rand, cycles, perPhase int) {
 	r := w.r
 	w.start()
@@ -768,6 +849,13 @@ func (w *c15World) run(rng *rand.Rand, cycles, perPhase int) {
 			s := pt.rt.star.Link(pt.egIf).BFDSession()
 			return s != nil && !s.IsUp()
 		})
+		for k, done := 0, 0; k < 200 && done < 2; k++ {
+			pt := w.probes[rng.IntN(len(w.probes))]
+			if s := pt.rt.star.Link(pt.egIf).BFDSession(); s != nil && !s.IsUp() {
+				w.burst(pt, 1500, "stable:some-down:"+tag, append([]string(nil), hist...))
+				done++
+			}
+		}
 		for _, wr := range cut {
 			wr.cut.Store(false)
 			note("restore %s", wr.name)
@@ -859,7 +947,7 @@ func checkC15(r *mon.Run) {
 		}()
 	}
 	wg.Wait()
-	r.Require(int64(nWorlds*cycles*perPhase), 20, "world_all_sessions_up", "phase_cut_links_down", "phase_restored_links_up",
+	r.Require(int64(nWorlds*cycles*perPhase), 20, "world_all_sessions_up", "phase_cut_links_down", "phase_restored_links_up", "burst_towards_down_link", "burst_with_unanswered_probes",
 		"probe_forwarded_up", "probe_forwarded_nobfd", "probe_scmp5_down", "probe_scmp6_down", "forwarded_after_restore",
 		"bfd_onehop_packets_accepted_by_peer_session", "bfd_intra_as_packets_accepted_by_peer_session")
 }
